@@ -21,7 +21,6 @@ import (
 	"keepverif/harness/hx"
 
 	"github.com/keep-network/keep-core/pkg/bitcoin"
-	"github.com/keep-network/keep-core/pkg/protocol/group"
 )
 
 const archiveGrace = 120 * time.Millisecond
@@ -78,7 +77,7 @@ func execCreg(f []string) (string, string) {
 		lookDone := make(chan struct{})
 		reg := r.reg
 		go func() {
-			regDone <- reg.RegisterSigner(walletPubs[w], operators, group.MemberIndex(i), fixShares[s])
+			regDone <- reg.RegisterSigner(walletPubs[w], operators, memberIndex(i), fixShares[s])
 		}()
 		select {
 		case <-g.saveDone:
